@@ -17,6 +17,10 @@ class MustRaise(Exception):
     pass
 
 
+class ModelGap(Exception):
+    """the reference cannot (or need not) compute this case; the case is not judged"""
+
+
 class Ctx:
     bl = 16
     res = 8
@@ -33,7 +37,8 @@ class OutOfDomain(Exception):
     pass
 
 
-def reset(bl=16, res=8, strict=False):
+def reset(bl=16, res=8, strict=False, p=None):
+    ctx.p = p
     ctx.bl = bl
     ctx.res = res
     ctx.flags = []
@@ -206,10 +211,14 @@ class RInt:
             need_bits(e)
             if e > 64 or (abs(b) > 1 and abs(b) ** e >= 1 << 200):
                 flag("secret exponent too large for the reference")
-        if e > 4096:
-            flag("exponent too large")
-            e = 4096
-        return RInt(b ** e)
+        if e > 1 << 16 and abs(b) > 1:
+            raise ModelGap("exponent too large for the reference")
+        r = b ** e
+        if secret_exp and r < 0:
+            ctx.flags.append("mech:secret-exponent-negative-base")
+        if secret_exp and ctx.p is not None and r >= ctx.p // 2:
+            ctx.flags.append("huge:secret-exponent power beyond p/2 (only congruence is required)")
+        return RInt(r)
 
     def __pow__(self, other, mod=None):
         if mod is not None:
@@ -237,7 +246,9 @@ class RInt:
                 raise MustRaise("negative shift count")
             if k > ctx.bl:
                 flag("shift count beyond bitlength")
-            return RInt(self.v << min(k, 4096))
+            if k > 1 << 16:
+                raise ModelGap("shift count too large for the reference")
+            return RInt(self.v << k)
         if isinstance(other, int) and not isinstance(other, RBool):
             if other < 0:
                 raise MustRaise("negative shift count")
@@ -257,7 +268,8 @@ class RInt:
             need_bits(k)
             if k >= ctx.bl:
                 flag("shift count beyond bitlength")
-            k = min(k, 4096)
+            if k > 1 << 16:
+                raise ModelGap("shift count too large for the reference")
             need_bits((1 << k) - (self.v % (1 << k)) - 1)
             return RInt(self.v >> k)
         if isinstance(other, int):
@@ -736,7 +748,7 @@ class RFxp:
             return self
         r = self * self ** (other - 1)
         if r.r < 0:
-            flag("fixed-point power with a negative result is reduced into [0,p) by the library (not in C14's list)")
+            ctx.flags.append("mech:fixed-point power with a negative result is reduced into [0,p) by the library (not in C14's list)")
         return r
 
     def __lshift__(self, other):
